@@ -438,6 +438,15 @@ func followPool(sc *PoolScenario, steps []histStep) (drift string, res *poolRunR
 		}
 		out.Final = st
 		ts, ok := st.Get(stp.Th)
+		for wait := 0; !ok && wait < 200; wait++ {
+			// a worker which was just started may not have reached its first hook yet (loaded machine)
+			time.Sleep(10 * time.Millisecond)
+			if st, err = pr.s.WaitStable(); err != nil {
+				return "", pr.finish(&out, err)
+			}
+			out.Final = st
+			ts, ok = st.Get(stp.Th)
+		}
 		if !ok {
 			return fmt.Sprintf("step %d %v: thread does not exist", k, stp), pr.finish(&out, nil)
 		}
